@@ -32,6 +32,14 @@ def under_case(draw):
         opt = float(draw(st.floats(0.0, 1.3)) * float(np.sum(sv.ub)))
     elif kind == "vector":
         opt = (sv.lb + np.asarray(draw(gens.array((sv.n,), -0.2, 1.2, styles=("raw",)))) * (sv.ub - sv.lb)).tolist()
+        if draw(st.integers(0, 2)) == 0 and rows[0].get("x") is not None:
+            # a goal that reproduces the first target exactly but leaves the box: the intensities behind the target moved along
+            # the null space of the capture matrix (e.g. a previous solution after the bounds were narrowed)
+            x0 = np.asarray(rows[0]["x"], dtype=float)
+            nv = np.linalg.svd(sv.Ap)[2][-1]
+            steps = [((ub_ - x_) / v_ if v_ > 0 else (lb_ - x_) / v_) for x_, v_, lb_, ub_ in zip(x0, nv, sv.lb, sv.ub) if abs(v_) > 1e-9]
+            if steps:
+                opt = (x0 + nv * (min(steps) * draw(st.floats(1.2, 3.0)))).tolist()
     W = draw(st.one_of(st.none(), gens.array((sv.m,), 0.5, 2.0, styles=("raw",))))
     return dict(system=sysd, rows=rows, kind=kind, opt=opt, l2_eps=draw(gens.log_uniform(1e-6, 1e-3)), W=W,
                 entry=draw(st.sampled_from(["function", "estimator"])), proportional=_prop)
